@@ -8720,21 +8720,27 @@ impl Introspect for std::time::Instant {
     }
 }
 
-fn u128_duration_nanos(nanos: u128) -> Duration {
+fn u128_duration_nanos(nanos: u128) -> Option<Duration> {
     if nanos > u64::MAX as u128 {
-        Duration::from_nanos((nanos % 1_000_000_000) as u64) + Duration::from_secs((nanos / 1_000_000_000) as u64)
+        let secs: u64 = (nanos / 1_000_000_000).try_into().ok()?;
+        Duration::from_nanos((nanos % 1_000_000_000) as u64).checked_add(Duration::from_secs(secs))
     } else {
-        Duration::from_nanos(nanos as u64)
+        Some(Duration::from_nanos(nanos as u64))
     }
 }
 impl Deserialize for SystemTime {
     fn deserialize(deserializer: &mut Deserializer<impl Read>) -> Result<Self, SavefileError> {
         let mut temp = deserializer.read_u128()?;
+        let out_of_range = || SavefileError::GeneralError {
+            msg: "Corrupt file - SystemTime value out of range".to_string(),
+        };
         if temp >= (1u128 << 127) {
             temp &= (1u128 << 127) - 1; //Before UNIX Epoch
-            return Ok(SystemTime::UNIX_EPOCH - u128_duration_nanos(temp));
+            let duration = u128_duration_nanos(temp).ok_or_else(out_of_range)?;
+            SystemTime::UNIX_EPOCH.checked_sub(duration).ok_or_else(out_of_range)
         } else {
-            return Ok(SystemTime::UNIX_EPOCH + u128_duration_nanos(temp));
+            let duration = u128_duration_nanos(temp).ok_or_else(out_of_range)?;
+            SystemTime::UNIX_EPOCH.checked_add(duration).ok_or_else(out_of_range)
         }
     }
 }
